@@ -127,19 +127,19 @@ def raise_cases(rng, tier):
     tt = statelib.load_index(C.GEN)['tables']
     icpsr = tt['sys_names'].index('cpsr')
     out = []
-    for cls, module, fields_of in (('Udf', 'udf', lambda r: [0]), ('Svc', 'svc', lambda r: [0, r.getrandbits(24)])):
+    for cls, module, fields_of in (('Udf', 'udf', lambda r: [0]), ('Svc', 'svc', lambda r: [0, r.getrandbits(24)]), ('Smc', 'smc', lambda r: [0])):
         for _ in range(20 if tier == 'quick' else 800):
             cfgd = dict(statelib.DEFAULT_CFG)
             st = statelib.reset_state(tt, cfg=cfgd, mem=[])
-            st['sys'][icpsr] = rng.choice([16, 17, 19, 23, 27, 31]) | (rng.getrandbits(1) << 5)
+            st['sys'][icpsr] = (16 if cls == 'Smc' else rng.choice([16, 17, 19, 23, 27, 31])) | (rng.getrandbits(1) << 5)
             st['R'] = [rng.getrandbits(32) for _ in range(34)]
             st['opcode'], st['opcode_len'] = 0xE0000000, 32
             fields = fields_of(rng)
             m = statelib.coq_machine(st)
             cfg = statelib.coq_config(cfgd, tt)
             args = ' '.join(str(x) for x in fields)
-            exn = 'EUndefined' if cls == 'Udf' else 'ESVC'
-            model = f'(enc_out enc_machine enc_unit ({cls}_execute {cfg + " " if cls == "Svc" else ""}{args} {m}))'
+            exn = 'ESVC' if cls == 'Svc' else 'EUndefined'
+            model = f'(enc_out enc_machine enc_unit ({cls}_execute {cfg + " " if cls != "Udf" else ""}{args} {m}))'
             out.append({'impl': {'kind': 'exec', 'state': st, 'module': module, 'cls': cls, 'fields': fields}, 'model': model,
                         'spec': f'(enc_out enc_machine enc_unit (Exc {exn} {m}))', 'label': 'raise_' + cls, 'nontrivial': True})
     return out
@@ -157,6 +157,7 @@ def units():
               'take_physical_irq_exception', 'take_physical_fiq_exception', 'it_advance', 'set_spsr', 'set', 'branch_to')] + \
             ['arm_v6.ArmV6.take_reset']
     return [Unit('entry', thms, ['Proofs/ExcProofs.v'], needs, entry_cases, IMPORTS, SPEC_IMPORTS),
-            Unit('raise', ['C11_Udf', 'C11_Svc'], ['Proofs/MiscProofs2.v'],
-                 ['opcodes.abstract_opcodes.udf.Udf.execute', 'opcodes.abstract_opcodes.svc.Svc.execute'], raise_cases,
+            Unit('raise', ['C11_Udf', 'C11_Svc', 'C11_Bkpt', 'C11_Smc_undefined'], ['Proofs/MiscProofs2.v'],
+                 ['opcodes.abstract_opcodes.udf.Udf.execute', 'opcodes.abstract_opcodes.svc.Svc.execute',
+                  'opcodes.abstract_opcodes.bkpt.Bkpt.execute', 'opcodes.abstract_opcodes.smc.Smc.execute'], raise_cases,
                  IMPORTS + '\nFrom Gen Require Import exec.', SPEC_IMPORTS + '\nFrom ArmV Require Import Lib.PyZ Lib.Monad.')]
